@@ -89,3 +89,9 @@ Lemma levelZ_oadd a b : levelZ (oadd a b) =
   match a, b with Some x, Some y => (Z.of_nat x + Z.of_nat y)%Z | _, _ => (-1)%Z end.
 Proof. destruct a, b; cbn; try reflexivity. lia. Qed.
 
+
+(* s[:b] is s[0:b] *)
+Lemma pyslice_no_lower {X} (s : list X) b : pyslice s None b = pyslice s (Some 0%Z) b.
+Proof.
+  unfold pyslice, slice_bound. cbn [Z.ltb Z.compare]. replace (Z.min 0 (zlen s)) with 0%Z by (unfold zlen; lia). reflexivity.
+Qed.
